@@ -462,6 +462,8 @@ def main(tier):
         runs = [("bfs3", base_constants(MaxLines=3, InitSets=tlc.Sub("MCInitAll"))),
                 ("bfs4-core-model-only", base_constants(MaxLines=4, ExprOn=False, Kinds=tlc.Sub("MCKindsCore"),
                                                         InitSets=tlc.Sub("MCInitOne")))]
+    if os.environ.get("VERIF_C03_SKIP_BFS4"):      # development knob: the 4-line run does not depend on the seed
+        runs = [r for r in runs if not r[0].startswith("bfs4")]
     for tag, c in runs:
         res = run_tlc(tag, c, progs_bfs, coverage=(tag == "bfs2-exprs"), export=not tag.endswith("model-only"))
         tlc_runs[tag] = res.summary()
